@@ -196,9 +196,12 @@ func c14Responder(req *http.Request, body []byte) *memnet.Response {
 		return nil
 	}
 	n, pat, kind := 0, "one", "plain"
+	status := 200
 	for _, f := range strings.Split(d, ";") {
 		k, v, _ := strings.Cut(f, "=")
 		switch k {
+		case "st":
+			fmt.Sscanf(v, "%d", &status)
 		case "len":
 			fmt.Sscanf(v, "%d", &n)
 		case "pat":
@@ -227,7 +230,7 @@ func c14Responder(req *http.Request, body []byte) *memnet.Response {
 		return r
 	}
 	// write pattern with virtual gaps between the pieces
-	raw := fmt.Sprintf("HTTP/1.1 200 OK\r\nContent-Length: %d\r\nX-Resp-Len: %d\r\nX-Target: %s\r\n\r\n%s", n, n, "buf", rb)
+	raw := fmt.Sprintf("HTTP/1.1 %d %s\r\nContent-Length: %d\r\nX-Resp-Len: %d\r\nX-Target: %s\r\n\r\n%s", status, http.StatusText(status), n, n, "buf", rb)
 	r.Raw = []byte(raw)
 	hl := len(raw) - n
 	if req.Method == "HEAD" {
@@ -424,6 +427,24 @@ func c14AfterEventStream(si int) func(w *World) []Violation {
 		}
 		return vs
 	}
+}
+
+// c14ExpectContinue: the client announces its body with `Expect: 100-continue`, the target answers `100 Continue`
+// and then its final response (201 / 404 with a body): status, headers and body reach the client unchanged whatever
+// is buffered.
+func c14ExpectContinue(w *World) []Violation {
+	var vs []Violation
+	for si, s := range c14Services {
+		for _, st := range []int{201, 404, 200} {
+			w.reqSeq++
+			o := w.Do(ReqSpec{ID: fmt.Sprintf("c14exp-%d", w.reqSeq), Method: "POST", Host: s.host(si), Path: "/x", Body: []byte("abc"),
+				Header: [][2]string{{"Expect", "100-continue"}, {"X-Resp", fmt.Sprintf("st=%d;len=3;pat=one;kind=plain", st)}}})
+			if o.Status != st || string(o.Body) != "abc" || o.Header.Get("X-Resp-Len") != "3" {
+				vs = append(vs, Violation{"C14", "response-altered expect-continue", fmt.Sprintf("svc=%d (reqbuf=%v respbuf=%v): the target answered 100 Continue and then %d with 3 bytes; the client got %s body %q", si, s.reqBuf, s.respBuf, st, o.Summary(), firstN(o.Body, 40))})
+			}
+		}
+	}
+	return vs
 }
 
 // c14Head: a HEAD response declares the entity's length but has no body: nothing is buffered, so no limit can be
@@ -718,6 +739,7 @@ func c14Cases(tier string) []ECase {
 			cases = append(cases, ECase{Name: fmt.Sprintf("L2 svc=%d overlapping buffered responses after an event stream", si), Class: "L2 after-event-stream", Run: c14AfterEventStream(si)})
 		}
 	}
+	cases = append(cases, ECase{Name: "L2 requests with Expect: 100-continue", Class: "L2 expect-continue", Run: c14ExpectContinue})
 	cases = append(cases, ECase{Name: "L2 HEAD requests for entities on both sides of the response limit", Class: "L2 head", Run: c14Head})
 	cases = append(cases, ECase{Name: "L2 200kB body in memory, target answers early, then two more requests", Class: "L2 early-answer big", Run: c14EarlyAnswerBig})
 	// stable order
